@@ -377,6 +377,65 @@ def run(out, jobs, budget, shards, only, limit):
                 print(i, res["id"], res["killed_by"], res["tests"], flush=True)
 
 
+def recheck(out, jobs):
+    """Re-run the survivors (not killed, tests pass) against the CURRENT
+    /verif at the full quick budget; writes recheck.jsonl."""
+    base = os.path.join(out, "base")
+    muts = {json.loads(ln)["id"]: json.loads(ln) for ln in open(os.path.join(out, "mutants.jsonl"))}
+    rs = [json.loads(ln) for ln in open(os.path.join(out, "results.jsonl"))]
+    surv = [muts[r["id"]] for r in rs if not r["killed_by"] and r["tests"] and r["tests"]["rc"] == 0]
+    donef = os.path.join(out, "recheck.jsonl")
+    done = set()
+    if os.path.exists(donef):
+        done = {json.loads(ln)["id"] for ln in open(donef)}
+    todo = [m for m in surv if m["id"] not in done]
+    print("survivors:", len(surv), "to recheck:", len(todo), flush=True)
+
+    def one(m):
+        m = dict(m, _text=m["repl"])
+        d = os.path.join(out, "work", "re-" + m["id"])
+        if os.path.exists(d):
+            shutil.rmtree(d)
+        os.makedirs(d)
+        tree = os.path.join(d, "repo")
+        subprocess.check_call(["cp", "-r", base, tree])
+        src_lines = open(os.path.join(tree, m["file"])).read().split("\n")
+        if src_lines and src_lines[-1] == "":
+            src_lines = src_lines[:-1]
+        open(os.path.join(tree, m["file"]), "w").write(apply_span(src_lines, tuple(m["span"]), m["_text"]))
+        env = dict(os.environ, VERIF_SCRATCH=d, VERIF_DIR=VERIF, VERIF_TIER="quick", VERIF_SEED="1",
+                   VERIF_REPO_COPY=tree, PYTHONPATH=tree + ":" + VERIF, PYTHONHASHSEED="0",
+                   PYTHONDONTWRITEBYTECODE="1")
+        res = dict(id=m["id"], killed_by=None, rcs={})
+        for pid in m["props"]:
+            try:
+                r = subprocess.run([PY, "-m", module_of(pid), "--no-evidence", "--shards", "4"], cwd=VERIF,
+                                   env=env, capture_output=True, text=True, timeout=900)
+                rc = r.returncode
+            except subprocess.TimeoutExpired:
+                rc = 124
+            res["rcs"][pid] = rc
+            if rc == 1:
+                res["killed_by"] = pid
+                break
+        shutil.rmtree(d, ignore_errors=True)
+        return res
+
+    from concurrent.futures import as_completed
+    with open(donef, "a") as fh, ThreadPoolExecutor(jobs) as ex:
+        for fu in as_completed([ex.submit(one, m) for m in todo]):
+            res = fu.result()
+            fh.write(json.dumps(res) + "\n")
+            fh.flush()
+    rs2 = [json.loads(ln) for ln in open(donef)]
+    still = [r for r in rs2 if not r["killed_by"]]
+    print(f"rechecked={len(rs2)} now killed={len(rs2) - len(still)} still surviving={len(still)}")
+    for r in still:
+        m = muts[r["id"]]
+        print(f"{m['id']} {','.join(m['props'])} {m['file']}:{m['span'][0]} {m['func']} [{m['op']}] "
+              f"{m['orig'][:70]!r} -> {m['repl'][:70]!r} {r['rcs']}")
+
+
 def report(out):
     muts = {json.loads(ln)["id"]: json.loads(ln) for ln in open(os.path.join(out, "mutants.jsonl"))}
     rs = [json.loads(ln) for ln in open(os.path.join(out, "results.jsonl"))]
@@ -399,7 +458,7 @@ def report(out):
 
 if __name__ == "__main__":
     ap = argparse.ArgumentParser()
-    ap.add_argument("cmd", choices=["gen", "run", "report"])
+    ap.add_argument("cmd", choices=["gen", "run", "report", "recheck"])
     ap.add_argument("--out", default="/var/tmp/mutsweep")
     ap.add_argument("--jobs", type=int, default=8)
     ap.add_argument("--budget", type=int, default=300)
@@ -411,5 +470,7 @@ if __name__ == "__main__":
         gen(a.out)
     elif a.cmd == "run":
         run(a.out, a.jobs, a.budget, a.shards, a.only, a.limit)
+    elif a.cmd == "recheck":
+        recheck(a.out, a.jobs)
     else:
         report(a.out)
